@@ -33,12 +33,17 @@ struct Move { int kind; int idx; LD f; };  // kind 0: parameter idx scaled by f;
 struct Elem { std::vector<Move> mv; };
 template <class S> struct Runner {
   std::vector<std::string> names; std::vector<LD> base; std::vector<const ApiEntry*> ev; LD c0[4] = {0.3125L, 0.4375L, 0.28125L, 0.125L};
-  std::vector<LD> cur; long evals = 0, sets = 0;
+  std::vector<LD> cur; long evals = 0, sets = 0; int iG = -1, iMu = -1;  // iMu >= 0: mu is tied to Gamma as at the defaults, mu = (Gamma-1)/(Gamma+1) in the scalar type
   void set(int i, LD v) { if (cur[i] == v) return; masa_set_param<S>(names[i], (S)v); cur[i] = v; sets++; }
   void apply(const Elem& e, LD pscale, LD cscale, LD* c) {  // pscale/cscale != 0: the "far" predecessor z_e (moved parameters x pscale instead of their factor, all coordinates x cscale)
     std::vector<LD> want = base; for (int k = 0; k < 4; k++) c[k] = c0[k] * (cscale != 0 ? cscale : 1);
     for (auto& m : e.mv) { if (m.kind == 0) want[m.idx] = base[m.idx] * (pscale != 0 ? pscale : m.f); else if (cscale == 0) c[m.idx] = c0[m.idx] * m.f; }
+    if (iMu >= 0) { S g = (S)want[iG]; want[iMu] = (LD)((g - 1) / (g + 1)); }
     for (size_t i = 0; i < want.size(); i++) set(i, want[i]);
+  }
+  std::string eval_one(const LD* c, size_t k) {
+    ApiArgs A; for (int q = 0; q < 4; q++) A.s[q] = c[q]; A.i = 1; A.fd = [](double T) { return 2.75 + 0.25 * T; }; A.fl = [](LD T) { return 2.75L + 0.25L * T; };
+    S r = sizeof(S) == 8 ? (S)ev[k]->cd(A) : (S)ev[k]->cl(A); evals++; return std::string((const char*)&r, sizeof(S) == 8 ? 8 : 10);
   }
   std::string eval_all(const LD* c) {
     std::string bits; ApiArgs A; for (int k = 0; k < 4; k++) A.s[k] = c[k]; A.i = 1; A.fd = [](double T) { return 2.75 + 0.25 * T; }; A.fl = [](LD T) { return 2.75L + 0.25L * T; };
@@ -57,12 +62,14 @@ template <class S> static void explore(const std::string& sol, const std::vector
     while (std::getline(ps, line)) { size_t p = line.find(" is set to:"); if (p != std::string::npos) R.names.push_back(line.substr(0, p)); } }
   for (auto& n : R.names) { LD d = (LD)masa_get_param<S>(n); R.base.push_back(d != 0 ? d : 0.75L); }
   R.cur.assign(R.names.size(), NAN);
+  { int g = -1, m = -1; for (size_t i = 0; i < R.names.size(); i++) { if (R.names[i] == "Gamma") g = i; if (R.names[i] == "mu") m = i; }
+    if (g >= 0 && m >= 0 && fabsl(R.base[m] - (R.base[g] - 1) / (R.base[g] + 1)) < 1e-9L) { R.iG = g; R.iMu = m; } }
   for (auto& k : evnames) { size_t sl = k.find('/'); const ApiEntry* e = api_find(k.substr(0, sl).c_str(), k.substr(sl + 1).c_str()); if (e) R.ev.push_back(e); }
   if (R.ev.empty()) return;
   // which coordinates matter at all: the largest number of scalar arguments among the evaluators
   int ncoord = 0; for (auto* e : R.ev) ncoord = std::max(ncoord, e->ns);
   std::vector<Move> moves; int n = R.names.size();
-  for (int i = 0; i < n; i++) for (LD f : {2.0L, 0.5L, -1.0L, 8.0L}) moves.push_back({0, i, f});
+  for (int i = 0; i < n; i++) { if (i == R.iMu) continue; for (LD f : {2.0L, 0.5L, -1.0L, 8.0L}) moves.push_back({0, i, f}); if (i == R.iG && R.iMu >= 0) for (LD f : {1.1875L, 0.875L}) moves.push_back({0, i, f}); }  // (tied Gamma: also moves that keep Gamma > 1)
   size_t nparam_moves = moves.size();
   for (int j = 0; j < ncoord; j++) for (LD f : {2.0L, 0.5L}) moves.push_back({1, j, f});
   std::vector<Elem> targets; targets.push_back(Elem());
@@ -89,6 +96,12 @@ template <class S> static void explore(const std::string& sol, const std::vector
     R.apply(e, 1.3125L, 1.6875L, cz); R.eval_all(cz); R.apply(base, 0, 0, cb); std::string b2 = R.eval_all(cb);
     hist += 4;
     size_t w = sizeof(S) == 8 ? 8 : 10;
+    // single-evaluator detours (one-move elements only): [base: all evaluators] -> [e: evaluator k ALONE] -> [base: all evaluators]; hidden state
+    // that one evaluator updates only partly is repaired by its siblings in the all-evaluator histories above
+    if (e.mv.size() == 1 && R.ev.size() > 1) for (size_t k = 0; k < R.ev.size(); k++) {
+      R.apply(base, 0, 0, cb); std::string r0 = R.eval_all(cb); R.apply(e, 0, 0, c); R.eval_one(c, k); R.apply(base, 0, 0, cb); std::string r1 = R.eval_all(cb); hist++;
+      for (size_t q = 0; q < R.ev.size(); q++) if (r0.compare(q * w, w, r1, q * w, w) != 0 && viol < 40) { viol++; fprintf(out, "V\t%s\t%s\t%s/%s\tvalue at the base element changes after a detour [%s] on which only %s/%s was evaluated\n", sol.c_str(), scal, R.ev[q]->name, R.ev[q]->sig, desc(R.names, e).c_str(), R.ev[k]->name, R.ev[k]->sig); }
+    }
     for (size_t k = 0; k < R.ev.size(); k++) {
       if (v1.compare(k * w, w, v2, k * w, w) != 0 && viol < 40) { viol++; fprintf(out, "V\t%s\t%s\t%s/%s\tvalue at element [%s] depends on the history: after [base] it differs from after [far predecessor]\n", sol.c_str(), scal, R.ev[k]->name, R.ev[k]->sig, desc(R.names, e).c_str()); }
       if (b1.compare(k * w, w, b2, k * w, w) != 0 && viol < 40) { viol++; fprintf(out, "V\t%s\t%s\t%s/%s\tvalue at the base element depends on the history: after [%s] it differs from after [far predecessor]\n", sol.c_str(), scal, R.ev[k]->name, R.ev[k]->sig, desc(R.names, e).c_str()); }
